@@ -1342,7 +1342,13 @@ func (sys *System) RetryEventWork(ctx *Context, location string, work *FindRules
 		return err
 	}
 	atomic.AddUint64(&sys.stats.TotalTime, uint64(Now()-then))
-	return loc.RetryEventWork(ctx, work)
+	// Not "return loc.RetryEventWork(ctx, work)": a nil *Condition
+	// returned as an error is an error that isn't nil ("nil
+	// condition"), so every retry that worked reported a failure.
+	if cond := loc.RetryEventWork(ctx, work); cond != nil {
+		return cond
+	}
+	return nil
 }
 
 // ListRules returns all rules (JSON) stored in the given location.
